@@ -204,6 +204,9 @@ def translate(ra, dec, r, theta):
     factor += np.cos(np.radians(dec)) \
             * np.sin(np.radians(r)) \
             * np.cos(np.radians(theta))
+    # rounding can push the argument of arcsin just outside [-1, 1] when the
+    # destination is a pole
+    factor = np.clip(factor, -1, 1)
     dec_out = np.degrees(np.arcsin(factor))
 
     y = np.sin(np.radians(theta)) * np.sin(np.radians(r)) \
